@@ -24,8 +24,22 @@ def function_table():
     return tbl
 
 
+def size_table():
+    sys.path.insert(0, os.path.join(V, "harness"))
+    import check
+
+    tbl = {}
+    for l in open(os.path.join(V, "properties.jsonl")):
+        for f in json.loads(l)["anchors"]["files"]:
+            path = os.path.join("/repo", f)
+            if f.endswith(".py") and os.path.exists(path):
+                tbl[f] = check._function_sizes(path)
+    return tbl
+
+
 if "--functions-only" in sys.argv:
     base["__functions__"] = function_table()
+    base["__sizes__"] = size_table()
     json.dump(base, open(path, "w"), indent=0)
     sys.exit(0)
 
@@ -50,4 +64,5 @@ for pid in pids:
     base[pid] = sorted(keys)
     json.dump(base, open(path, "w"), indent=0)
 base["__functions__"] = function_table()
+base["__sizes__"] = size_table()
 json.dump(base, open(path, "w"), indent=0)
